@@ -93,6 +93,8 @@ type vfE4Env struct {
 	// real run); ExecX appends it to the op line so that the model and the oracle can ACCEPT or
 	// refuse it: ` pick=<conn>:<hex topic>,…` (POST /topic/tombstone?topic=*), ` obs=<conn>,…` (qstar)
 	amend string
+	// body of the last answer of a pprof row (C15 sweep: the text of a non-200 answer is judged by a direct oracle)
+	lastBody []byte
 }
 
 func vfE4Start(realHTTP bool, topics []string) *vfE4Env {
@@ -114,7 +116,8 @@ func vfE4Start(realHTTP bool, topics []string) *vfE4Env {
 		}
 	}()
 	return &vfE4Env{l: l, h: newHTTPServer(l), realHTTP: realHTTP,
-		client:  &http.Client{Timeout: vfE4IOTimeout},
+		// redirects (httprouter's 301/307 for non-canonical paths) are answers, not something to follow
+		client: &http.Client{Timeout: vfE4IOTimeout, CheckRedirect: func(*http.Request, []*http.Request) error { return http.ErrUseLastResponse }},
 		conns:   map[int]*vfE4Conn{},
 		addr2id: map[string]int{}, vnow: vfE4Now0, topics: topics, hist: map[string]int{}}
 }
@@ -372,9 +375,16 @@ func (e *vfE4Env) httpDo(method, path, rawQuery string) (int, []byte) {
 		e.h.ServeHTTP(w, req)
 		return w.Code, w.Body.Bytes()
 	}
+	if path == "*" {
+		target = "/"
+	}
 	req, err := http.NewRequest(method, "http://"+e.l.RealHTTPAddr().String()+target, nil)
 	if err != nil {
 		panic(err)
+	}
+	if path == "*" {
+		// server-wide request line `OPTIONS * HTTP/1.1`
+		req.URL = &url.URL{Scheme: "http", Host: e.l.RealHTTPAddr().String(), Opaque: "*"}
 	}
 	resp, err := e.client.Do(req)
 	if err != nil {
@@ -764,8 +774,23 @@ func (e *vfE4Env) execOnly(w []string) (string, bool) {
 			out = fmt.Sprintf("%d %s", code, m.Message)
 		}
 	case "raw":
-		code, body := e.httpDo(w[2], w[3], vfE4Query(w[4], w[5], w[6], w[7]))
+		// optional tokens after the six arguments: q=<hex of extra raw query> (pprof arguments)
+		query := vfE4Query(w[4], w[5], w[6], w[7])
+		for _, tok := range w[8:] {
+			if strings.HasPrefix(tok, "q=") {
+				if query != "" {
+					query += "&"
+				}
+				query += string(vfE4Unhex(tok[2:]))
+			}
+		}
+		code, body := e.httpDo(w[2], w[3], query)
 		out = fmt.Sprintf("status=%d", code)
+		if strings.HasPrefix(w[3], "/debug/pprof/") {
+			// a pprof row answers one of a SET of statuses: ExecX hands the observed one to the model (acceptor)
+			e.amend = fmt.Sprintf("obs=%d", code)
+			e.lastBody = body
+		}
 		if code == 200 && w[2] == "GET" && w[3] == "/ping" {
 			out += " body=" + vfHex(body) // PlainText decorator: the two bytes "OK"
 		}
